@@ -9,10 +9,10 @@ PROGRAMS = [
     ("close-vs-loop-pong-and-ping", {"compress": False, "threads": {"A": [["close"]], "L": [["loop_pong", [1]], ["loop_autoping"]], "B": [["send_text", "B1"]]}}),
 ]
 BQ = {name: 1 for name, _ in PROGRAMS}
-BT = {k: 2 for k in BQ}
+BT = {"close-vs-send": 2, "close-vs-close": 2, "close-vs-compressed-send": 2, "close-vs-loop-echo": 1, "close-vs-loop-pong-and-ping": 1}
 RULE = ('every schedule with at most 1-2 pre-emptions (line granularity, stateless exhaustive search) of 5 thread programs built around close(): close() against '
         'send_text/send_binary/send_ping, against another close(), against the loop echoing a server Close, answering a Ping and sending an automatic Ping; every '
-        'sendall split in two steps; thorough adds 20000 random opcode-granular schedules; non-trivial = distinct (program, wire order, call results)')
+        'sendall split in two steps; thorough adds 6000 random opcode-granular schedules; non-trivial = distinct (program, wire order, call results)')
 
 
 def run(tier, seed):
